@@ -58,7 +58,9 @@ def expected_list(t0, t1, b):
         nxt = f(t0)
     except OverflowError:
         return ('skip',)
-    if (t0 < t1 and nxt <= t0) or (t1 < t0 and nxt >= t0):
+    if nxt == t0:
+        return ('skip',)      # a zero bump ('0b', 0, '0d') neither approaches nor points away from t1: the property makes no claim
+    if (t0 < t1 and nxt < t0) or (t1 < t0 and nxt > t0):
         return ('raise',)
     if 'str' in b:
         toks = tokens(b['str'])
